@@ -182,53 +182,50 @@ Proof.
 Qed.
 
 (* ------------------------------------------------------------------------- phase B *)
-Definition write_halt (g : nat) (h : halt) : Prop := h = HCrash (SWrite g) \/ h = HRaise (SWrite g).
-
 Lemma rewrite_spec : forall flt c f w,
   store (final (rewrite flt c f w)) = store w /\
   match rewrite flt c f w with
   | inl (_, w') => exists t w1, new_code flt c f w = inl (t, w1) /\ disk w' = set_assoc (f_id f) (New t) (disk w)
-  | inr (h, w') => (disk w' = disk w /\ not_write h) \/ (disk w' = set_assoc (f_id f) Trunc (disk w) /\ write_halt (f_id f) h)
+  | inr (h, w') => disk w' = disk w            (* whatever fails or is interrupted: the test file itself is untouched *)
   end.
 Proof.
   intros flt c f w. unfold rewrite.
   destruct (quiet_new_code flt c f w) as [Hd [Hs Hh]].
   destruct (new_code flt c f w) as [[t w1]|[h w1]]; cbn [bind final halted] in *.
-  2:{ split; [exact Hs|]. left. split; [exact Hd|apply Hh; reflexivity]. }
+  2:{ split; [exact Hs|exact Hd]. }
   destruct (quiet_raising flt (SOpenW (f_id f)) w1) as [Hd2 [Hs2 Hh2]]; [intros g; discriminate|].
   destruct (raising flt (SOpenW (f_id f)) w1) as [[[] w2]|[h w2]]; cbn [bind final halted] in *.
-  2:{ split; [congruence|]. left. split; [congruence|apply Hh2; reflexivity]. }
-  destruct (tick_spec flt (SWrite (f_id f)) (set_disk (f_id f) Trunc w2)) as [[b [E _]]|E]; rewrite E; cbn [bind].
-  - destruct b; cbn [final].
-    + split; [cbn; congruence|]. right. split; [cbn; congruence|right; reflexivity].
-    + split; [cbn; congruence|]. exists t, w1. split; [reflexivity|]. cbn [set_disk log disk]. rewrite set_assoc_twice. congruence.
-  - cbn [final]. split; [cbn; congruence|]. right. split; [cbn; congruence|left; reflexivity].
+  2:{ split; congruence. }
+  destruct (tick_spec flt (SWrite (f_id f)) (set_tmp [(f_id f, Trunc)] w2)) as [[b1 [E1 _]]|E1]; rewrite E1; cbn [bind].
+  2:{ cbn [final]. split; cbn; congruence. }
+  destruct b1; [unfold cleanup_raise; cbn [final]; split; cbn; congruence|].
+  destruct (tick_spec flt (SMode (f_id f)) (set_tmp [(f_id f, New t)] (log (SWrite (f_id f)) (set_tmp [(f_id f, Trunc)] w2)))) as [[b2 [E2 _]]|E2]; rewrite E2; cbn [bind].
+  2:{ cbn [final]. split; cbn; congruence. }
+  destruct b2; [unfold cleanup_raise; cbn [final]; split; cbn; congruence|].
+  match goal with |- context [tick flt (SRename (f_id f)) ?W] => destruct (tick_spec flt (SRename (f_id f)) W) as [[b3 [E3 _]]|E3]; rewrite E3; cbn [bind] end.
+  2:{ cbn [final]. split; cbn; congruence. }
+  destruct b3; [unfold cleanup_raise; cbn [final]; split; cbn; congruence|].
+  cbn [final]. split; [cbn; congruence|]. exists t, w1. split; [reflexivity|]. cbn. congruence.
 Qed.
 
-(* what phase B can do to the disk: entries are kept, get a complete new content, or - only at the file whose write was
-   hit by the fault - stay truncated *)
+(* what phase B can do to the disk: an entry is kept or gets a complete new content - nothing else, at any fault point *)
 Lemma phaseB_each : forall flt c fs w,
   let r := each (rewrite flt c) fs w in
   store (final r) = store w /\
   forall g ct, In (g, ct) (disk (final r)) ->
     In (g, ct) (disk w)
-    \/ (exists f t w0 w1, In f fs /\ g = f_id f /\ ct = New t /\ new_code flt c f w0 = inl (t, w1))
-    \/ (ct = Trunc /\ exists h, halted r = Some h /\ write_halt g h).
+    \/ (exists f t w0 w1, In f fs /\ g = f_id f /\ ct = New t /\ new_code flt c f w0 = inl (t, w1)).
 Proof.
   intros flt c fs. induction fs as [|f r IH]; intros w; cbn [each].
   - cbn zeta. split; [reflexivity|]. intros g ct H. left. exact H.
   - destruct (rewrite_spec flt c f w) as [Hs Hr].
     destruct (rewrite flt c f w) as [[[] w1]|[h w1]]; cbn [bind final halted] in *.
     + destruct Hr as [t [w0 [Enc Hd]]]. specialize (IH w1). cbn zeta in IH. destruct IH as [Hs2 Hd2].
-      cbn zeta. split; [congruence|]. intros g ct Hin. destruct (Hd2 g ct Hin) as [H|[H|H]].
+      cbn zeta. split; [congruence|]. intros g ct Hin. destruct (Hd2 g ct Hin) as [H|H].
       * rewrite Hd in H. apply in_set_assoc in H. destruct H as [H|[-> ->]]; [left; exact H|].
-        right. left. exists f, t, w, w0. split; [left; reflexivity|]. repeat split. exact Enc.
-      * right. left. destruct H as [f0 [t0 [wa [wb [Hf [Hg [Hc Hn]]]]]]]. exists f0, t0, wa, wb. split; [right; exact Hf|]. repeat split; assumption.
-      * right. right. exact H.
-    + cbn zeta. cbn [final halted]. split; [exact Hs|]. intros g ct Hin. destruct Hr as [[Hd _]|[Hd Hw]].
-      * left. rewrite <- Hd. exact Hin.
-      * rewrite Hd in Hin. apply in_set_assoc in Hin. destruct Hin as [H|[-> ->]]; [left; exact H|].
-        right. right. split; [reflexivity|]. exists h. split; [reflexivity|exact Hw].
+        right. exists f, t, w, w0. split; [left; reflexivity|]. repeat split. exact Enc.
+      * right. destruct H as [f0 [t0 [wa [wb [Hf [Hg [Hc Hn]]]]]]]. exists f0, t0, wa, wb. split; [right; exact Hf|]. repeat split; assumption.
+    + cbn zeta. cbn [final halted]. split; [exact Hs|]. intros g ct Hin. left. rewrite <- Hr. exact Hin.
 Qed.
 
 (* ------------------------------------------------------------------------- the write phase as a whole *)
@@ -276,24 +273,23 @@ Proof.
   - left. exists h, wA. split; reflexivity.
 Qed.
 
-(* C15 (1): a truncated file can only be the one file whose write() was hit by the fault *)
-Theorem no_torn_file : forall g, In (g, Trunc) (disk (final run)) -> exists h, halted run = Some h /\ write_halt g h.
+(* C15 (1): no test file is ever truncated: the new content is written into a temporary file which replaces the test file
+   atomically - at every fault point, for both fault kinds *)
+Theorem no_torn_file : forall g, ~ In (g, Trunc) (disk (final run)).
 Proof.
-  intros g Hin. destruct run_cases as [[h [wA [EA ->]]]|[wA [EA [[h [wB [EB ->]]]|[wB [EB ->]]]]]]; cbn [final halted] in *.
+  intros g Hin. destruct run_cases as [[h [wA [EA E]]]|[wA [EA [[h [wB [EB E]]]|[wB [EB E]]]]]]; rewrite E in Hin; cbn [final halted] in *.
   - pose proof (phaseA_each flt c (c_files c) (init c news olds)) as P. cbn zeta in P. rewrite EA in P. cbn [final] in P.
     destruct P as [Hd _]. rewrite Hd in Hin. apply init_disk_old in Hin. discriminate.
   - pose proof (phaseA_each flt c (c_files c) (init c news olds)) as P. cbn zeta in P. rewrite EA in P. cbn [final] in P.
     destruct P as [Hd _]. pose proof (phaseB_each flt c (c_files c) wA) as Q. cbn zeta in Q. rewrite EB in Q. cbn [final halted] in Q.
-    destruct Q as [_ Q]. destruct (Q g Trunc Hin) as [H|[H|H]].
+    destruct Q as [_ Q]. destruct (Q g Trunc Hin) as [H|H].
     + rewrite Hd in H. apply init_disk_old in H. discriminate.
     + destruct H as [f [t [w0 [w1 [_ [_ [H _]]]]]]]. discriminate.
-    + destruct H as [_ H]. exact H.
   - pose proof (phaseA_each flt c (c_files c) (init c news olds)) as P. cbn zeta in P. rewrite EA in P. cbn [final] in P.
     destruct P as [Hd _]. pose proof (phaseB_each flt c (c_files c) wA) as Q. cbn zeta in Q. rewrite EB in Q. cbn [final halted] in Q.
-    destruct Q as [_ Q]. cbn [report disk] in Hin. destruct (Q g Trunc Hin) as [H|[H|H]].
+    destruct Q as [_ Q]. cbn [report disk] in Hin. destruct (Q g Trunc Hin) as [H|H].
     + rewrite Hd in H. apply init_disk_old in H. discriminate.
     + destruct H as [f [t [w0 [w1 [_ [_ [H _]]]]]]]. discriminate.
-    + destruct H as [_ [h [H _]]]. discriminate.
 Qed.
 
 (* C15 (2): if ANY file on disk has new content - at any interruption point, after any failure - then every external
@@ -429,7 +425,7 @@ Proof.
     pose proof (phaseB_each flt c (c_files c) wA) as Q. cbn zeta in Q. destruct Q as [_ Q].
     assert (Hin' : In (g, New Garb) (disk (final (each (rewrite flt c) (c_files c) wA)))).
     { destruct HB as [[h [wB [EB E]]]|[wB [EB E]]]; rewrite E in Hin; rewrite EB; cbn [final report disk] in *; exact Hin. }
-    destruct (Q g (New Garb) Hin') as [H|[H|H]].
+    destruct (Q g (New Garb) Hin') as [H|H].
     + rewrite Hd in H. apply init_disk_old in H. discriminate.
     + destruct H as [f [t [w0 [w1 [Hf [_ [Ht Hn]]]]]]]. injection Ht as <-.
       destruct (c_fmt c) eqn:Em.
@@ -438,7 +434,6 @@ Proof.
       * specialize (Hprem eq_refl). apply new_code_nofail in Hn; [|exact Hprem].
         destruct (each_prepare_complete flt c (c_files c) _ wA EA f Hf) as [t [wa [wb [H1 H2]]]].
         apply new_code_nofail in H1; [|exact Hprem]. congruence.
-    + destruct H as [H _]. discriminate.
 Qed.
 
 (* the premise is needed: a formatter that returns unparsable text AND fails once during phase A gets its garbage written *)
@@ -449,13 +444,12 @@ Proof.
   vm_compute. left. reflexivity.
 Qed.
 
-(* F-19: the write itself is not atomic: an interruption or failure between open(.., "bw") and write() leaves the file empty *)
-Example write_fault_refuted :
-  exists flt c, In (0, Trunc) (disk (final (write_phase flt c (init c [] [])))).
-Proof.
-  exists (Some (8, Crash)), {| c_enforce := false; c_fmt := FOk; c_files := [{| f_id := 0; f_clean := true; f_import := false; f_exts := [] |}] |}.
-  vm_compute. left. reflexivity.
-Qed.
+(* an interruption inside SourceFile.rewrite leaves the test file as it was and a temporary file next to it *)
+Example crash_leaves_only_a_temporary_file :
+  let c := {| c_enforce := false; c_fmt := FOk; c_files := [{| f_id := 0; f_clean := true; f_import := false; f_exts := [] |}] |} in
+  let r := write_phase (Some (8, Crash)) c (init c [] []) in
+  disk (final r) = [(0, Old)] /\ tmp (final r) = [(0, Trunc)] /\ halted r = Some (HCrash (SWrite 0)).
+Proof. vm_compute. repeat split. Qed.
 
 (* ------------------------------------------------------------------------- a completed run *)
 Lemma lookup_set_assoc_cases : forall X k g (v : X) l,
@@ -578,9 +572,15 @@ Lemma Jp_rewrite : forall f w, Jp w (rewrite flt c f w).
 Proof.
   intros f w. unfold rewrite. apply Jp_bind; [apply Jp_new_code|]. intros t w1 _.
   apply Jp_bind; [apply Jp_raising; discriminate|]. intros [] w2 _ Hj.
-  assert (Hj3 : J (set_disk (f_id f) Trunc w2)) by exact (J_same w2 _ eq_refl eq_refl Hj).
-  revert Hj3. apply Jp_bind; [apply Jp_tick_other; discriminate|]. intros b w4 _ Hj4.
-  destruct b; cbn [final]; [exact Hj4|exact (J_same w4 _ eq_refl eq_refl Hj4)].
+  assert (Hj3 : J (set_tmp [(f_id f, Trunc)] w2)) by exact (J_same w2 _ eq_refl eq_refl Hj).
+  revert Hj3. apply Jp_bind; [apply Jp_tick_other; discriminate|]. intros b1 w4 _ Hj4.
+  destruct b1; [unfold cleanup_raise; cbn [final]; exact (J_same w4 _ eq_refl eq_refl Hj4)|].
+  assert (Hj5 : J (set_tmp [(f_id f, New t)] w4)) by exact (J_same w4 _ eq_refl eq_refl Hj4).
+  revert Hj5. apply Jp_bind; [apply Jp_tick_other; discriminate|]. intros b2 w6 _ Hj6.
+  destruct b2; [unfold cleanup_raise; cbn [final]; exact (J_same w6 _ eq_refl eq_refl Hj6)|].
+  revert Hj6. apply Jp_bind; [apply Jp_tick_other; discriminate|]. intros b3 w7 _ Hj7.
+  destruct b3; [unfold cleanup_raise; cbn [final]; exact (J_same w7 _ eq_refl eq_refl Hj7)|].
+  cbn [final]. exact (J_same w7 _ eq_refl eq_refl Hj7).
 Qed.
 Lemma Jp_each : forall (g : file -> world -> res unit), (forall f w, Jp w (g f w)) -> forall fs w, Jp w (each g fs w).
 Proof.
@@ -662,14 +662,21 @@ Proof.
   - cbn [L]. split; [discriminate|]. left. exists (length (trace w1)). split; [exact Hf|apply nth_error_log].
   - cbn [L]. exists (length (trace w1)). exact Hf.
 Qed.
+Lemma L_step_cleanup : forall s w (k : world -> res unit), s <> SFormat -> (forall w', L (k w')) ->
+  L (bind (tick flt s w) (fun failed w' => if failed then cleanup_raise s w' else k w')).
+Proof.
+  intros s w k Hs Hk. destruct (tick_cases s w) as [E|[[E Hf]|[E Hf]]]; rewrite E; cbn [bind].
+  - apply Hk.
+  - unfold cleanup_raise. cbn [L]. split; [exact Hs|]. left. exists (length (trace w)). split; [exact Hf|]. cbn [set_tmp trace]. apply nth_error_log.
+  - cbn [L]. exists (length (trace w)). exact Hf.
+Qed.
 Lemma L_rewrite : forall f w, L (rewrite flt c f w).
 Proof.
   intros f w. unfold rewrite. apply L_bind; [apply L_new_code|]. intros t w1 _.
   apply L_bind; [apply L_raising; discriminate|]. intros [] w2 _.
-  destruct (tick_cases (SWrite (f_id f)) (set_disk (f_id f) Trunc w2)) as [E|[[E Hf]|[E Hf]]]; rewrite E; cbn [bind L].
-  - exact I.
-  - split; [discriminate|]. left. exists (length (trace (set_disk (f_id f) Trunc w2))). split; [exact Hf|apply nth_error_log].
-  - exists (length (trace (set_disk (f_id f) Trunc w2))). exact Hf.
+  apply (L_step_cleanup (SWrite (f_id f)) _ (fun w4 => bind (tick flt (SMode (f_id f)) (set_tmp [(f_id f, New t)] w4)) _)); [discriminate|]. intros w4.
+  apply (L_step_cleanup (SMode (f_id f)) _ (fun w6 => bind (tick flt (SRename (f_id f)) w6) _)); [discriminate|]. intros w6.
+  apply (L_step_cleanup (SRename (f_id f)) _ (fun w7 => inl (tt, set_tmp [] (set_disk (f_id f) (New t) w7)))); [discriminate|]. intros w7. exact I.
 Qed.
 Lemma L_each : forall (g : file -> world -> res unit), (forall f w, L (g f w)) -> forall fs w, L (each g fs w).
 Proof.
@@ -713,7 +720,80 @@ Example format_failure_example :
   let c := {| c_enforce := false; c_fmt := FOk;
               c_files := [{| f_id := 0; f_clean := false; f_import := false; f_exts := [] |};
                           {| f_id := 1; f_clean := true; f_import := true; f_exts := [7] |}] |} in
-  let r := write_phase (Some (15, Fail)) c (init c [7] []) in
-  nth_error (trace (final r)) 15 = Some SFormat /\ halted r = None /\ reported (final r) = true /\
+  let r := write_phase (Some (17, Fail)) c (init c [7] []) in
+  nth_error (trace (final r)) 17 = Some SFormat /\ halted r = None /\ reported (final r) = true /\
   disk (final r) = [(0, New Raw); (1, New Raw)] /\ store (final r) = [(7, false)].
 Proof. vm_compute. repeat split. Qed.
+
+(* ------------------------------------------------------------------------- temporary files *)
+Section Tmp.
+Variable flt : option (nat * fkind).
+Variable c : config.
+
+Definition Tp {A} (w : world) (r : res A) : Prop := tmp w = [] -> tmp (final r) = [].
+Lemma Tp_bind : forall A B (m : res A) (k : A -> world -> res B) w,
+  Tp w m -> (forall a w1, m = inl (a, w1) -> Tp w1 (k a w1)) -> Tp w (bind m k).
+Proof. intros A B m k w Hm Hk H. destruct m as [[a w1]|[h w1]]; cbn [bind]; [exact (Hk a w1 eq_refl (Hm H))|exact (Hm H)]. Qed.
+Lemma Tp_tick : forall s w, Tp w (tick flt s w).
+Proof. intros s w H. destruct (tick_spec flt s w) as [[b [E _]]|E]; rewrite E; cbn [final]; exact H. Qed.
+Lemma Tp_raising : forall s w, Tp w (raising flt s w).
+Proof. intros s w. unfold raising. apply Tp_bind; [apply Tp_tick|]. intros b w1 _ H. destruct b; exact H. Qed.
+Lemma Tp_format_call : forall m w, Tp w (format_call flt m w).
+Proof. intros m w. unfold format_call. apply Tp_bind; [apply Tp_tick|]. intros b w1 _ H. destruct b; [exact H|destruct m; exact H]. Qed.
+Lemma Tp_ret : forall A (a : A) w, Tp w (inl (a, w) : res A).
+Proof. intros A a w H. exact H. Qed.
+Lemma Tp_new_code : forall f w, Tp w (new_code flt c f w).
+Proof.
+  intros f w. unfold new_code. apply Tp_bind; [apply Tp_raising|]. intros [] w1 _. apply Tp_bind.
+  - destruct (c_enforce c); [apply Tp_ret|]. apply Tp_bind; [apply Tp_format_call|]. intros r w2 _. apply Tp_ret.
+  - intros whole w3 _. destruct whole; [|apply Tp_ret]. apply Tp_bind; [apply Tp_format_call|]. intros r w4 _. apply Tp_ret.
+Qed.
+Lemma Tp_persist_all : forall es w, Tp w (persist_all flt es w).
+Proof. induction es as [|e r IH]; intros w; cbn [persist_all]; [apply Tp_ret|]. apply Tp_bind; [apply Tp_raising|]. intros [] w1 _ H. apply IH. exact H. Qed.
+Lemma Tp_prepare : forall f w, Tp w (prepare flt c f w).
+Proof.
+  intros f w. unfold prepare. apply Tp_bind; [apply Tp_new_code|]. intros t w1 _. apply Tp_bind; [apply Tp_tick|]. intros b w2 _.
+  destruct b; [intros H; exact H|]. destruct t; try (intros H; exact H);
+    (apply Tp_bind; [destruct (f_import f); [apply Tp_raising|apply Tp_ret]|intros [] w3 _; apply Tp_persist_all]).
+Qed.
+Lemma Tp_each : forall (g : file -> world -> res unit), (forall f w, Tp w (g f w)) -> forall fs w, Tp w (each g fs w).
+Proof. intros g Hg fs. induction fs as [|f r IH]; intros w; cbn [each]; [apply Tp_ret|]. apply Tp_bind; [apply Hg|]. intros [] w1 _. apply IH. Qed.
+
+(* inside SourceFile.rewrite a temporary file can only be left behind by an interruption *)
+Definition Tq {A} (w : world) (r : res A) : Prop :=
+  tmp w = [] -> match r with inr (HCrash _, _) => True | _ => tmp (final r) = [] end.
+Lemma Tq_of_Tp : forall A w (r : res A), Tp w r -> Tq w r.
+Proof. intros A w r H H0. destruct r as [[a w1]|[[s|s] w1]]; [exact (H H0)|exact I|exact (H H0)]. Qed.
+Lemma Tq_rewrite : forall f w, Tq w (rewrite flt c f w).
+Proof.
+  intros f w H0. unfold rewrite.
+  pose proof (Tp_new_code f w H0) as H1. destruct (new_code flt c f w) as [[t w1]|[[s|s] w1]]; cbn [bind final] in *; [|exact I|exact H1].
+  pose proof (Tp_raising (SOpenW (f_id f)) w1 H1) as H2.
+  destruct (raising flt (SOpenW (f_id f)) w1) as [[[] w2]|[[s|s] w2]]; cbn [bind final] in *; [|exact I|exact H2].
+  destruct (tick_spec flt (SWrite (f_id f)) (set_tmp [(f_id f, Trunc)] w2)) as [[b1 [E1 _]]|E1]; rewrite E1; cbn [bind]; [|exact I].
+  destruct b1; [reflexivity|].
+  match goal with |- context [tick flt (SMode (f_id f)) ?W] => destruct (tick_spec flt (SMode (f_id f)) W) as [[b2 [E2 _]]|E2]; rewrite E2; cbn [bind]; [|exact I] end.
+  destruct b2; [reflexivity|].
+  match goal with |- context [tick flt (SRename (f_id f)) ?W] => destruct (tick_spec flt (SRename (f_id f)) W) as [[b3 [E3 _]]|E3]; rewrite E3; cbn [bind]; [|exact I] end.
+  destruct b3; reflexivity.
+Qed.
+Lemma Tq_each_rewrite : forall fs w, Tq w (each (rewrite flt c) fs w).
+Proof.
+  induction fs as [|f r IH]; intros w H0; cbn [each]; [exact H0|].
+  pose proof (Tq_rewrite f w H0) as H1. destruct (rewrite flt c f w) as [[[] w1]|[[s|s] w1]]; cbn [bind final] in *; [exact (IH w1 H1)|exact I|exact H1].
+Qed.
+
+(* C15: unless the process was interrupted inside SourceFile.rewrite, no temporary file is left behind - failures clean up *)
+Theorem tmp_only_after_interruption : forall news olds,
+  match halted (write_phase flt c (init c news olds)) with
+  | Some (HCrash _) => True
+  | _ => tmp (final (write_phase flt c (init c news olds))) = []
+  end.
+Proof.
+  intros news olds. unfold write_phase.
+  pose proof (Tp_each (prepare flt c) Tp_prepare (c_files c) (init c news olds) eq_refl) as HA.
+  destruct (each (prepare flt c) (c_files c) (init c news olds)) as [[[] wA]|[[s|s] wA]]; cbn [bind halted final] in *; [|exact I|exact HA].
+  pose proof (Tq_each_rewrite (c_files c) wA HA) as HB.
+  destruct (each (rewrite flt c) (c_files c) wA) as [[[] wB]|[[s|s] wB]]; cbn [bind halted final] in *; [exact HB|exact I|exact HB].
+Qed.
+End Tmp.
